@@ -19,6 +19,7 @@ func (stdioRWC) Close() error                { return nil }
 // sftpServerMain serves the local file system over SFTP on stdin/stdout (pkg/sftp's server, the
 // library desync's client side comes from). desync starts it through CASYNC_SSH_PATH.
 func sftpServerMain() {
+	sftpServerLimits() // remotestores.go: an optional file size limit for the served tree
 	srv, err := sftp.NewServer(stdioRWC{})
 	if err != nil {
 		os.Exit(3)
